@@ -510,25 +510,31 @@ class _FileRenderer:
         return start
 
     def literal(self, v):
-        """a match-rule value; records the match-processor calls it causes (inner before outer)."""
+        """a match-rule value; records the match-processor calls it causes (inner before outer) and the
+        match parse tree `[rule, start, kids | None]` (`None`: a terminal; rule "" = a string match)."""
+        s, tree = self._literal(v)
+        self.out.mtrees.append((self.k, tree))
+        return s
+
+    def _literal(self, v):
         rule, k = v["rule"], self.k
         if "inner" in v:
-            s = self.literal(v["inner"])
+            s, t = self._literal(v["inner"])
             self.out.matches.append((k, rule, s, v["lit"]))
-            return s
+            return s, [rule, s, [t]]
         if "parts" in v:
             m = self.mm[rule]
             s = self.emit(m["prefix"])
             s1 = self.emit(str(v["parts"][0]))
             self.out.matches.append((k, "INT", s1, str(v["parts"][0])))
-            self.emit(":")
+            sc = self.emit(":")
             s2 = self.emit(str(v["parts"][1]))
             self.out.matches.append((k, "INT", s2, str(v["parts"][1])))
             self.out.matches.append((k, rule, s, f"{m['prefix']}{v['parts'][0]}:{v['parts'][1]}"))
-            return s
+            return s, [rule, s, [["", s, None], ["INT", s1, None], ["", sc, None], ["INT", s2, None]]]
         s = self.emit(v["lit"])
         self.out.matches.append((k, rule, s, v["lit"]))
-        return s
+        return s, [rule, s, None]
 
     def value(self, v, decl, parent, attr, idx):
         if isinstance(v, dict) and "uid" in v:
@@ -569,6 +575,7 @@ class _FileRenderer:
                         tok(",")
                     s = tok(self.names[r["ref"]])
                     self.out.matches.append((self.k, "ID", s, self.names[r["ref"]]))
+                    self.out.mtrees.append((self.k, ["ID", s, None]))
                     self.out.refs.append((self.k, s, o["uid"], a, r["ref"], r.get("wait", 0)))
                 if m == "star":
                     tok("]")
@@ -607,12 +614,14 @@ def render(case, layout_seed=0):
     .grammar, .texts[k],
     .objs {uid: {file, rule, decl (declared rule of the holding attribute), parent uid, attr, idx, start, end}},
     .matches [(file, rule, offset, text)] — match-processor calls in call order per file,
+    .mtrees [(file, [rule, offset, kids | None])] — the match parse trees behind them, same order,
     .refs [(file, offset, source uid, attr, target uid, wait)]."""
     from harness.core import Rng
 
     out = Rendered()
     out.grammar = grammar_text(case["schema"])
     out.texts, out.objs, out.matches, out.refs = [], {}, [], []
+    out.mtrees = []
     lay = Rng(f"layout:{layout_seed}")
     names = {}
     for f in case["files"]:
